@@ -28,10 +28,10 @@ def CreateConnection : List String := ["streamMgr.CreateStream", "connLock.Lock"
 def FindClientNode_storage : List String := ["storage.Get", "GetConnectionState"]
 def GetConnectionState_storage : List String := ["storage.Get", "storage.Delete"]
 def HandlersComponent_Initialize : List String := ["session.NewConnectionStateStore", "SessionMgr.SetConnectionStateStore", "session.NewCrossNodePool", "SessionMgr.SetCrossNodePool"]
-def Hybrid_Get : List String := ["h.getCategory", "h.getCacheForKey", "cache.Get", "cache.Get", "h.getSharedPersistent", "cache.Get", "h.persistent.Get"]
+def Hybrid_Get : List String := ["h.getCategory", "h.getCacheForKey", "cache.Get", "h.getSharedPersistent", "cache.Get", "h.persistent.Get"]
 def Hybrid_getCacheForKey : List String := ["h.isShared"]
 def Hybrid_getCategory : List String := ["h.isSharedPersistent", "h.isShared", "h.isPersistent"]
-def Hybrid_setShared : List String := ["h.getCacheForKey", "cache.Set", "cache.Set"]
+def Hybrid_setShared : List String := ["h.getCacheForKey", "cache.Set"]
 def KickOldControlConnection : List String := ["clientRegistry.KickOldConnection"]
 def RemoveControlConnection : List String := ["clientRegistry.GetByConnID", "clientRegistry.Remove", "cloudControl.DisconnectClientIfMatch"]
 def SendCommandToClient : List String := ["GetControlConnectionByClientID", "sendCommandLocal", "sendCommandCrossNode"]
